@@ -5,15 +5,21 @@ from props import xmlcommon as X
 
 PROP = "C16"
 ENGINE = "xmltb"
-LEAN_TARGETS = ["H5V.Props.C16"]
-AUDIT_IMPORTS = ["H5V.Props.C16"]
+LEAN_TARGETS = ["H5V.Props.C16", "H5V.Props.C16Xml"]
+AUDIT_IMPORTS = ["H5V.Props.C16", "H5V.Props.C16Xml"]
 THEOREMS = ["H5V.Props.C16." + t for t in [
     "C16_balance", "C16_no_panic", "C16_script_root_unbalanced",
     "C16_resolve_partial", "C16_resolve_fixed", "C16_witness_prefixed_xmlns", "C16_witness_dup_decl",
     "C16_attrs_sublist", "C16_attr_dropped_only_if", "C16_isDeclLike_is_decl", "C16_isDeclLike_fixed",
     "C16_tok_dropped_only_if_partial", "C16_tok_dropped_only_if_fixed", "C16_tok_no_dup_qname_fixed",
     "C16_witness_item14", "C16_witness_dup_decl_reversed",
-    "C16_splitQName_split", "C16_splitQName_some", "C16_splitQName_none", "C16_resolve_source_fixed"]]
+    "C16_splitQName_split", "C16_splitQName_some", "C16_splitQName_none", "C16_resolve_source_fixed",
+    # Props/C16Xml.lean: simulation between the tree-valued model and the HANDLE-LEVEL model (Model/XmlTBH.lean, tied to the
+    # code by the literal sink-call trace `xmltb trace`): the create_element calls of the trace carry exactly the created
+    # list of the tree-valued model, hence the lexical-scope resolver's names and attributes
+    "bsim_iff", "bsim_new", "bsim_step", "bsim_step_total", "C16_xml_reach_bsim", "C16_xml_trace_created",
+    "C16_xml_trace_created_tokens", "C16_xml_trace_created_of_run", "C16_xml_trace_resolve", "C16_xml_trace_resolve_pinned",
+    "C16_xml_trace_resolve_source", "tagOk_finishTag_fixed"]]
 TRUSTED = [
     "Lean 4 kernel; axioms ⊆ {propext, Classical.choice, Quot.sound} (audited per run)",
     "hand-written model lean/H5V/Model/XmlTB.lean of xml5ever/src/tree_builder/mod.rs (token level) and of the "
@@ -301,8 +307,9 @@ def wide_token_lists():
         names = ["a%d" % i for i in range(n)]
         a1 = [(x, "1") for x in names]
         a2 = [(x, "2") for x in reversed(names)]
-        out.append([("S", "r", [("xmlns:p", "urn:p"), ("xmlns:q", "urn:p")]), ("M", "first", a1),
-                    ("M", "second", a2 + [("a0", "dup"), ("a%d" % (n - 1), "dup2")]),
+        for dups in ([("a0", "dup"), ("a%d" % (n - 1), "dup2")], []):
+          out.append([("S", "r", [("xmlns:p", "urn:p"), ("xmlns:q", "urn:p")]), ("M", "first", a1),
+                    ("M", "second", a2 + dups),
                     ("M", "third", a1[:n - 1] + [("p:dup", "first"), ("q:dup", "second"), ("xmlns:z", "urn:z"), ("z:k", "v"),
                                                  ("xmlns", "urn:d")]),
                     ("S", "fourth", [("x", "0")] + [("xmlns:n%d" % i, "urn:n%d" % i) for i in range(n)] + [("n1:y", "1"), ("n%d:y" % (n - 1), "2")]),
